@@ -75,6 +75,22 @@ def cases(tier):
             for members in ([{'m': 1, 'cap': 1, 'tamper_statement': ts}], [{'m': 1, 'cap': 2}, {'m': 2, 'cap': 2, 'tamper_statement': ts}], [{'m': 2, 'cap': 2, 'tamper_statement': ts}, {'m': 1, 'cap': 2}]):
                 out.append({'cfg': {'scenario': 'batch', 'n': 4, 'x': x, 'members': members, 'actions': ACTIONS}, 'kind': 'gens-shape',
                             'name': 'generator vector / degree tag mismatch: %s x%d batch of %d' % (ts, x, len(members))})
+    # statements whose DATA is special though every shape is ordinary: the identity commitment (value 0, all-zero mask) at each position of an
+    # aggregate and of a batch, equal commitments, zero / equal blinding factors, the same member twice, one parameters object for all members
+    for (n, x) in ((4, 1), (8, 2)):
+        for pos in range(2):
+            mem = {'m': 2, 'cap': 2, 'values': [('0' if j == pos else '3') for j in range(2)], 'zero_blindings_at': [pos], 'sym_bits': False}
+            for members in ([mem], [{'m': 1, 'cap': 2}, dict(mem, name_idx=3)], [dict(mem, name_idx=3), {'m': 1, 'cap': 2}]):
+                out.append({'cfg': {'scenario': 'batch', 'n': n, 'x': x, 'members': members, 'actions': ACTIONS}, 'kind': 'gens-shape', 'name': 'identity commitment at position %d, batch of %d (n%d x%d)' % (pos, len(members), n, x)})
+        out.append({'cfg': {'scenario': 'batch', 'n': n, 'x': x, 'members': [{'m': 1, 'cap': 1, 'values': ['0'], 'zero_blindings': True, 'sym_bits': False, 'seeded': True}], 'actions': ACTIONS}, 'kind': 'gens-shape',
+                    'name': 'single identity commitment with a seed (n%d x%d)' % (n, x)})
+        out.append({'cfg': {'scenario': 'batch', 'n': n, 'x': x, 'members': [{'m': 2, 'cap': 2, 'values': ['5', '5'], 'equal_blindings': True, 'sym_bits': False, 'promises': ['1', '2']}], 'actions': ACTIONS}, 'kind': 'gens-shape',
+                    'name': 'equal blinding components / equal values (n%d x%d)' % (n, x)})
+        out.append({'cfg': {'scenario': 'batch', 'n': n, 'x': x, 'members': [{'m': 1, 'cap': 1, 'seeded': True, 'name_idx': 0}, {'m': 1, 'cap': 1, 'seeded': True, 'name_idx': 0, 'rng_replay_of': 0}], 'actions': ACTIONS}, 'kind': 'gens-shape',
+                    'name': 'the same member twice (n%d x%d)' % (n, x)})
+        for perm in ((4, 1, 2), (1, 4, 2), (2, 1, 4)):
+            out.append({'cfg': {'scenario': 'batch', 'n': n, 'x': x, 'members': [{'m': mm, 'cap': 4, 'share_params': True, 'label': 'member %d' % i} for i, mm in enumerate(perm)], 'actions': ACTIONS}, 'kind': 'gens-shape',
+                        'name': 'one parameters object for aggregates %s (n%d x%d)' % (list(perm), n, x)})
     return out
 
 
